@@ -144,7 +144,10 @@ class Exhaustive(Part):
 
     def strategy(self, ctx):
         # half of the payloads are 8-12 KB blobs: sizes at which an implementation may treat header and payload separately
-        return program_strategy(max_convs=2, max_items=2, max_choices=0, preempts=0, blob=12000, min_blob=8200)
+        # (byte-wise chunking of such payloads would cost thousands of scheduling points per message: reads come in
+        # pieces of at least 2000 bytes here and sends are not split; fine-grained chunking is the sched part's job)
+        return program_strategy(max_convs=2, max_items=2, max_choices=0, preempts=0, blob=12000, min_blob=8200).map(
+            lambda c: dict(c, chunks=[max(x, 2000) for x in c["chunks"]], send_chunks=[]))
 
     def run(self, case, ctx):
         from vlib import explore
